@@ -332,3 +332,47 @@ func VH_C18_paren() {
 		vAssert(calls[2].typ == "set" && calls[2].name == "意志", "third-edit-verbatim")
 	}
 }
+
+// ASCII names that begin with a dice letter, directly after a value: 'N' + 'd..' must not read as dice
+var vC18DiceLetterLists = []struct {
+	src   string
+	names []string
+	vals  []int64
+}{
+	{"^st力量60dex70", []string{"力量", "dex"}, []int64{60, 70}},
+	{"^st力量60 dex70", []string{"力量", "dex"}, []int64{60, 70}},
+	{"^st力量60Dodge:7 str5", []string{"力量", "Dodge", "str"}, []int64{60, 7, 5}},
+	{"^ststr5dex6con7", []string{"str", "dex", "con"}, []int64{5, 6, 7}},
+	{"^st力量:60dex=70,Dodge8", []string{"力量", "dex", "Dodge"}, []int64{60, 70, 8}},
+	{"^stdex70力量60", []string{"dex", "力量"}, []int64{70, 60}},
+	{"^st力量6fate7", []string{"力量", "fate"}, []int64{6, 7}},
+	{"^st力量6pow7 bonus8", []string{"力量", "pow", "bonus"}, []int64{6, 7, 8}},
+}
+
+func init() {
+	vHarnesses["VH_C18_letters"] = VH_C18_letters
+}
+
+//vh:prop=C18 tiers=quick,thorough sigkeys=list overrides=formatFriendlyError budget_s=300 bounds="8 assignment lists in which an ASCII name beginning with a dice letter (d D f p b c) follows a numeric value with or without a separator: one callback per edit, in order, names and values as written, the list consumed entirely"
+func VH_C18_letters() {
+	l := vC18DiceLetterLists[vChoice("list", len(vC18DiceLetterLists))]
+	vm := vNewVM()
+	var calls []vStCall
+	vm.Config.CallbackSt = func(typ string, name string, val *VMValue, extra *VMValue, op string, detail string) {
+		calls = append(calls, vStCall{typ, name, op, detail, val, extra})
+	}
+	err := vm.Run(l.src)
+	vReach("ran")
+	vAssert(err == nil, "list-is-accepted")
+	if err != nil {
+		return
+	}
+	vAssert(vm.RestInput == "", "list-consumed-entirely")
+	vAssert(len(calls) == len(l.names), "one-callback-per-edit")
+	for i := range calls {
+		if i < len(l.names) {
+			iv, ok := calls[i].val.ReadInt()
+			vAssert(calls[i].typ == "set" && calls[i].name == l.names[i] && ok && int64(iv) == l.vals[i], "edit-reported-as-written")
+		}
+	}
+}
